@@ -40,16 +40,16 @@ Section TagGen.
      the enclosing function body; `keys` = Some when a binding map is collected for the value *)
   Definition normal_attr_dynamic (kind : attr_kind) (name : str) (e : expr)
              (b : bmc) (keys : option (list (str * N))) (st : gst) : gst * list str :=
-    let '(st1, v, r) := prepare scopes lit_str e {| next_priv := next_priv st; stmts := [] |} in
+    let '(st1, v, r) := prepare scopes lit_str e (mk_gst (next_priv st)) in
     let main := lit "if(C||K||" ++ guard_str scopes false lit_str r ++ lit ")O(N," ++ lit_str name ++ lit ","
                 ++ v ++ normal_attr_lvalue kind name r ++ lit ")" in
-    let st_out := {| next_priv := next_priv st1; stmts := [] |} in
+    let st_out := (mk_gst (next_priv st1)) in
     let bm :=
       match keys with
       | Some ks =>
           if keys_is_empty b ks then []
           else
-            let '(st2, v2, r2) := prepare scopes lit_str e {| next_priv := next_priv st1; stmts := [] |} in
+            let '(st2, v2, r2) := prepare scopes lit_str e (mk_gst (next_priv st1)) in
             [write_map_prefix b ks ++ lit "(D,E,T)=>{" ++
              join_stmts (stmts st2 ++ [lit "O(N," ++ lit_str name ++ lit "," ++ v2 ++ normal_attr_lvalue kind name r2 ++ lit ")";
                                        lit "E(N)"]) ++ lit "}"]
@@ -59,18 +59,18 @@ Section TagGen.
 
   (* text node with a dynamic value *)
   Definition text_dynamic (e : expr) (b : bmc) (keys : option (list (str * N))) (st : gst) : gst * list str :=
-    let '(st1, v, r) := prepare scopes lit_str e {| next_priv := next_priv st; stmts := [] |} in
+    let '(st1, v, r) := prepare scopes lit_str e (mk_gst (next_priv st)) in
     let bm :=
       match keys with
       | Some ks =>
           if keys_is_empty b ks then []
           else
-            let '(st2, v2, _) := prepare scopes lit_str e {| next_priv := next_priv st1; stmts := [] |} in
+            let '(st2, v2, _) := prepare scopes lit_str e (mk_gst (next_priv st1)) in
             lit ",(N)=>{" ++ write_map_prefix b ks ++ lit "(D,E,T)=>{" ++
             join_stmts (stmts st2 ++ [lit "T(N,Y(" ++ v2 ++ lit "))"]) ++ lit "}}"
       | None => []
       end in
-    ({| next_priv := next_priv st1; stmts := [] |},
+    ((mk_gst (next_priv st1)),
      stmts st1 ++ [lit "C||K||" ++ guard_str scopes false lit_str r ++ lit "?T(Y(" ++ v ++ lit ")" ++ bm ++ lit "):T()"]).
 
   (* the `A={...}` initialiser *)
